@@ -18,6 +18,10 @@ Inductive c11case :=
    keys only), and for each test key what a real client then reported under
    headers and under trailers *)
 | UnarySplit (raw : hmap) (keys : list bytes) (client_header client_trailer : hmap)
+(* an error's metadata written by a real handler: [twin] is the container (response
+   headers / HTTP trailers / trailer frame / end-of-stream metadata) of the same call
+   failing with an error that has no metadata, [obs] the container with [meta] attached *)
+| ErrMetaWritten (twin meta : hmap) (keys : list bytes) (obs : hmap)
 | BinEncode (s obs : bytes)
 | BinDecode (s : bytes) (obs : option bytes).
 
@@ -26,6 +30,8 @@ Definition c11_ok (c : c11case) : bool :=
   | UnarySplit raw keys ch ct =>
     let '(hs, ts) := split_prefixed connect_unary_trailer_prefix raw in
     forallb (fun k => lists_eqb (values k hs) (values k ch) && lists_eqb (values k ts) (values k ct)) keys
+  | ErrMetaWritten twin meta keys obs =>
+    forallb (fun k => lists_eqb (values k (merge_metadata twin meta)) (values k obs)) keys
   | BinEncode s obs => bs_eqb (encode_binary_header s) obs
   | BinDecode s obs => opt_eqb bs_eqb (decode_binary_header s) obs
   end.
